@@ -63,10 +63,14 @@ function e.ok(frame) return "ok" .. (frame.args[1] or "") end
 function e.raise(frame) error("boom") end
 function e.slow(frame) while true do end end
 function e.guarded(frame) local ok = pcall(error, "boom") return ok and "bad" or "caught" end
+function e.sum(frame) local s = 0 for i = 1, tonumber(frame.args[1]) do s = s + i end return "sum" .. s end
 return e
 """
 FOLLOW = {"benign": "{{#invoke:c07aux|ok|z}}", "raising": "{{#invoke:c07aux|raise}}", "timing_out": "{{#invoke:c07aux|slow}}",
           "guarded": "{{#invoke:c07aux|guarded}}",
+          # finishes well inside the limit but runs long enough (millions of VM instructions) for the limit's hook to fire:
+          # a deadline must be counted from the start of this invocation
+          "benign_long": "{{#invoke:c07aux|sum|400000}}",
           # invocations that fail on the Python side of the bridge (module name too long for the file system; a lone surrogate
           # that cannot be encoded for Lua): in-band failure, and the time limit keeps working afterwards
           "python_oserror": "{{#invoke:" + "x" * 5000 + "|ok}}", "python_unicode": "{{#invoke:c07aux\ud800|ok}}"}
@@ -84,7 +88,7 @@ def fresh_results():
     ctx = new_ctx(lua=True)
     ctx.add_page("Module:c07aux", 828, AUX, model="Scribunto")
     out = {}
-    for k in ("benign", "raising", "guarded"):
+    for k in ("benign", "raising", "guarded", "benign_long"):
         ctx.start_page("Tt")
         out[k] = ctx.expand(FOLLOW[k], timeout=LIMIT)
     close_ctx(ctx)
@@ -168,9 +172,9 @@ def main(run):
     chunks = []
     if q:
         for b, w in QUICK:
-            chunks.append((b, w, "function", ("benign",)))
+            chunks.append((b, w, "function", ("benign", "benign_long")))
         for b, w in QUICK[:6]:
-            chunks.append((b, w, "toplevel", ("benign", "raising")))
+            chunks.append((b, w, "toplevel", ("benign_long", "raising")))
         for b in ("nested_inner_loop", "preprocess_invoke", "after_nested_invoke", "nested_in_parserfn", "loop_nested_in_parserfn",
                   "nested_in_template_arg"):
             chunks.append((b, "none", "function", ("guarded", "timing_out", "benign")))
@@ -195,7 +199,7 @@ def main(run):
         "rule": "programs = non-terminating body (%d shapes: tight loops, loops calling library functions / frame:preprocess / a nested "
                 "#invoke, recursion, attempts to clear or re-arm the timeout hook) x wrapper (%d: none, pcall, xpcall, pcall in an outer "
                 "loop, nested pcall, looping error handler, coroutine if obtainable, pcall followed by a loop) x position (function "
-                "body, module top level)%s, each invoked with timeout=1 and followed by histories over {benign, raising, timing-out}%s; "
+                "body, module top level)%s, each invoked with timeout=1 and followed by histories over {benign, long benign, raising, guarded, timing-out, failing on the Python side}%s; "
                 "distinct = distinct programs." % (len(BODIES), len(WRAPPERS), " (quick: 26 selected programs)" if q else "",
                                                    "" if q else " of length 0..2 (all 13 histories on two base programs, rotating over the rest)"),
         "exhaustive": not q,
